@@ -150,8 +150,8 @@ class Contract:
         self.ensures_on_raise_.append((name, fn))
         return self
 
-    def loop(self, ordinal, invariant=None, frame=None, decreases=None, lists=True):
-        self.loops[ordinal] = LoopSpec(invariant, frame, decreases, lists)
+    def loop(self, ordinal, invariant=None, frame=None, decreases=None, lists=True, ghost=(), single_iteration=None):
+        self.loops[ordinal] = LoopSpec(invariant, frame, decreases, lists, ghost=ghost, single_iteration=single_iteration)
         return self
 
     def setup(self, fn):
